@@ -1032,6 +1032,75 @@ func bufferedFlush(id string, how string, cause string) runner.Result {
 	return res
 }
 
+// recvFlushParked: something is buffered (the invoke a connection writes when it makes the stream, or
+// sends under manual flushing), a receive flushes it and that write is parked inside the transport;
+// the stream is cancelled meanwhile; the write is let go. The receive is the only operation in flight:
+// once it has returned the stream must be finished (signal, context) like after any other operation.
+func recvFlushParked(id string, how string, cause string, raw bool) runner.Result {
+	gw := &gateWriter{parkAt: 0, reached: make(chan struct{}), release: make(chan struct{})}
+	wr := drpcwire.NewWriter(gw, 1<<20)
+	st := drpcstream.NewWithOptions(context.Background(), streamID, wr, drpcstream.Options{ManualFlush: how == "manual-send"})
+	d := payload.Make(1, 0, 0, 1, 100)
+	var err error
+	if how == "manual-send" {
+		err = st.MsgSend(&d, payload.Enc{})
+	} else {
+		err = st.RawWrite(drpcwire.KindInvoke, []byte("/rpc"))
+	}
+	if err != nil {
+		return runner.Inconcl(id, "setup write failed: "+err.Error())
+	}
+	recv := rig.Go("recv", func() (interface{}, error) {
+		if raw {
+			_, err := st.RawRecv()
+			return nil, err
+		}
+		var m []byte
+		return nil, st.MsgRecv(&m, payload.Enc{})
+	})
+	if s, _ := census.QuiesceOr(gw.reached, rig.Watchdog); s != "ready" {
+		close(gw.release)
+		return runner.Inconcl(id, "the receive's flush did not reach the transport")
+	}
+	canceller := rig.Go("cancel", func() (interface{}, error) {
+		switch cause {
+		case "Cancel":
+			st.Cancel(errCancel)
+		case "remote-cancel":
+			st.HandlePacket(drpcwire.Packet{ID: drpcwire.ID{Stream: streamID, Message: 1}, Kind: drpcwire.KindCancel, Control: true})
+		case "remote-error":
+			st.HandlePacket(drpcwire.Packet{ID: drpcwire.ID{Stream: streamID, Message: 1}, Kind: drpcwire.KindError, Data: drpcwire.MarshalError(errors.New("remote failed"))})
+		}
+		return nil, nil
+	})
+	census.Quiesce(rig.Watchdog)
+	close(gw.release)
+	census.Quiesce(rig.Watchdog)
+	where := fmt.Sprintf("[%s, receive (raw=%v) whose flush is parked in the transport, %s, write released]", how, raw, cause)
+	var fails []string
+	if !recv.Returned() || !canceller.Returned() {
+		fails = append(fails, fmt.Sprintf("%s: receive returned=%v, cancelling call returned=%v at quiescence", where, recv.Returned(), canceller.Returned()))
+	} else {
+		if recv.Err == nil {
+			fails = append(fails, where+": the receive returned nil")
+		}
+		select {
+		case <-st.Finished():
+		default:
+			fails = append(fails, where+": the stream is terminated and no operation is in flight, but it is not finished")
+		}
+		if st.Context().Err() == nil {
+			fails = append(fails, where+": the stream's context is not done although the stream should be finished")
+		}
+	}
+	if len(fails) > 0 {
+		return runner.Violation(id, "state-machine:not-finished-after-receive-flush", strings.Join(fails, "\n"))
+	}
+	res := runner.Hold(id, where, true)
+	res.Events = 3
+	return res
+}
+
 // failKey reduces a failure message to its kind (the part after the position).
 func failKey(s string) string {
 	if i := strings.Index(s, "]: "); i >= 0 {
@@ -1193,6 +1262,16 @@ func gen(tier string, seed uint64) []runner.Scenario {
 			how, cause := how, cause
 			id := fmt.Sprintf("buffered-flush/%s/%s", how, cause)
 			out = append(out, runner.Scenario{ID: id, Run: func() runner.Result { return bufferedFlush(id, how, cause) }})
+			if cause != "SendCancel" {
+				for _, raw := range []bool{false, true} {
+					how2, cause2, raw := how, cause, raw
+					if how2 != "manual-send" {
+						how2 = "buffered-invoke"
+					}
+					id2 := fmt.Sprintf("recv-flush-parked/%s/%s/raw=%v", how2, cause2, raw)
+					out = append(out, runner.Scenario{ID: id2, Run: func() runner.Result { return recvFlushParked(id2, how2, cause2, raw) }})
+				}
+			}
 		}
 	}
 	// seeded longer sequences
